@@ -1040,3 +1040,84 @@ LEVEL_NOTE = ("Partial: zsh/fish/nushell have no generator model (token oracle o
               "Command::build and its text side are tied differentially (built-tree dump, byte-exact scripts; that build "
               "never exhausts its fuel IS proved: C16_build_total); char::is_uppercase is a parameter of the PowerShell "
               "model; known findings (see known_findings.json) are outside the proved class.")
+
+
+# ---- zsh generator model ----
+# Byte-exact Gallina model of clap_complete/src/aot/shells/zsh.rs (coq/theories/Complete/ZshModel.v over the built tree of
+# AotTree.v and the text decoration of FishModel.v; theorems in ZshProofs.v / ZshLexProofs.v).  Correspondence streams
+# `zsh-model` / `zsh-model-names`: the script of the extracted model must equal the real generator's script BYTE FOR BYTE.
+AREAS = AREAS + ["zsh"]
+TRUSTED = TRUSTED + [
+    "zsh generator model: extraction of Complete/ZshModel.v (+ FishModel.v's text decoration and dbuild; ExtrOcamlBasic "
+    "only), driver ocaml/zsh_driver.ml (readers of the aot and aottext spec formats); conflicts_with, value_names, "
+    "value_terminator and last are outside the model (no spec format expresses them; the model writes what the generator "
+    "writes when they are absent)",
+]
+
+ZSH_NAME_BYTES = ["'", "\\", ",", "$", "#", " ", "\"", "`", "(", ")", ";", "\t", "é", "%", "~", "*", "=", "\n", "-", "_",
+                  "[", "]", ":", "+", "|"]
+
+
+def zsh_names_case(rng):
+    """fish_names_case with the alphabet of the zsh slots ('[', ']', ':' added) for the zsh generator"""
+    global FISH_NAME_BYTES
+    saved = FISH_NAME_BYTES
+    FISH_NAME_BYTES = ZSH_NAME_BYTES
+    try:
+        c = fish_names_case(rng)
+    finally:
+        FISH_NAME_BYTES = saved
+    return c.replace("(aot fish ", "(aot zsh ", 1)
+
+
+def zsh_lookup_cases():
+    """the lookup by bin name (parser_of): sibling names that are string prefixes of each other, at two levels and
+    in both orders; names with a space whose bin name collides with a nested path (both orders: the lookup returns
+    the first in pre-order); empty bin name; empty subcommand name"""
+    h = hexs
+    fl = lambda i, s: "(arg %s (s %s) (act flag))" % (h(i), h(s))
+    out = []
+    for a, b in (("add", "add-all"), ("add-all", "add"), ("a", "a b"), ("ab", "a")):
+        out.append("(aot zsh %s (cmd %s (cmd %s %s (cmd %s %s) (cmd %s %s)) (cmd %s %s (cmd %s %s))))"
+                   % (h("p"), h("p"), h(a), fl("f1", "a"), h(a), fl("f2", "b"), h(b), fl("f3", "c"),
+                      h(b), fl("f4", "d"), h(a), fl("f5", "e")))
+    out.append("(aot zsh %s (cmd %s (cmd %s %s) (cmd %s (cmd %s %s))))"
+               % (h("prog"), h("prog"), h("a b"), fl("f1", "x"), h("a"), h("b"), fl("f2", "y")))
+    out.append("(aot zsh %s (cmd %s (cmd %s (cmd %s %s)) (cmd %s %s)))"
+               % (h("prog"), h("prog"), h("a"), h("b"), fl("f2", "y"), h("a b"), fl("f1", "x")))
+    out.append("(aot zsh %s (cmd %s (cmd %s (cmd %s))))" % (h(""), h("prog"), h("a"), h("b")))
+    out.append("(aot zsh %s (cmd %s (cmd %s (cmd %s))))" % (h("a"), h("prog"), h(""), h("b")))
+    out.append("(aot zsh %s (cmd %s (cmd %s (cmd %s)) (cmd %s)))" % (h("p q"), h("prog"), h("r"), h("s"), h("r s")))
+    return out
+
+
+_streams_without_zsh_model = streams
+
+
+def streams(tier, rng):
+    out = _streams_without_zsh_model(tier, rng)
+    quick = tier == "quick"
+    cases, dist = [], {}
+    plans = [(None, 90 if quick else 1300),
+             ({"alias_without_primary": True}, 12 if quick else 150),    # finding alias-without-primary (class boundary)
+             ({"optional_value": True}, 12 if quick else 150),           # finding zsh-optional-value (class boundary)
+             ({"bin": "b in"}, 4 if quick else 40), ({"bin": "é-x"}, 4 if quick else 40)]
+    for prof, n in plans:
+        for _ in range(n):
+            c, st = make_case(rng, "zsh", tier, profile=prof)
+            cases.append(c)
+            merge(dist, st)
+    out.append(Stream("zsh-model", cases, oracle=oracle, area="zsh", project=fish_project, nontrivial=nontrivial,
+                      describe=dist))
+    cases = zsh_lookup_cases() + [zsh_names_case(rng) for _ in range(50 if quick else 1200)]
+    out.append(Stream("zsh-model-names", cases, area="zsh", project=fish_project, nontrivial=nontrivial,
+                      describe={"trees": len(cases), "name alphabet": [repr(c) for c in ZSH_NAME_BYTES],
+                                "lookup cases": len(zsh_lookup_cases())}))
+    return out
+
+
+RULE = RULE + ("  Streams zsh-model / zsh-model-names: the same trees (+ options whose aliases have no primary, optional "
+               "values, bin names with a space / non-ASCII; names with quotes, brackets, colons, spaces; sibling names that "
+               "are prefixes of each other; colliding bin names) on which the script of the extracted zsh generator model "
+               "must equal the real script byte for byte.")
+# ---- end zsh generator model ----
